@@ -80,7 +80,13 @@ def unrepresentable(d, path="$"):
     for k, v in d.items():
         if is_hidden(k):
             continue
-        if isinstance(v, dict):
+        if isinstance(v, dict) and (k in vocab.kv_keys() or k == "config") and ("__type__" not in v or v["__type__"] in vocab.kv_keys()):
+            # a key-value block: every value in it has to be a scalar (a dict there - e.g. auto-created by reading a missing key of
+            # the block - or a list has no Mapfile representation)
+            for kk, vv in v.items():
+                if not is_hidden(kk) and isinstance(vv, (dict, list)):
+                    out.append(f"{path}.{k}.{kk}")
+        elif isinstance(v, dict):
             if "__type__" not in v and k not in vocab.kv_keys() and k != "config":
                 if not v and _container_key(d.get("__type__"), k):
                     continue  # an empty container: nothing (or an empty block) is written, no bogus text
@@ -118,9 +124,9 @@ def precondition(composites, quote, newlinechar="\n", end_comment=False):
     if unk:
         return "keyword unknown to the schema of its object: " + unk[0]
     for t, k, s in relations.string_leaves(roots):
-        if quote in s:
+        if relations.unescaped(s, quote):
             return "string contains the output quote character"
-        if "\\" in s:
+        if s.endswith("\\"):
             return "string contains a backslash"
         if "\r" in s:
             return "string contains CR"
@@ -443,7 +449,7 @@ def layout(w, text, opts, rep):
     # 1. every line break is newlinechar (outside string tokens)
     masked = list(text)
     for t in w.all:
-        if t.kind in ("dq", "sq", "ccomment"):
+        if t.kind in ("dq", "sq", "ccomment", "expr", "list", "bq"):  # (an expression may hold a string literal with a line break)
             for i in range(t.start, t.end):
                 if masked[i] in "\r\n":
                     masked[i] = " "
